@@ -53,6 +53,11 @@ def run(ctx):
     apps = history_appends(sample, repo, smc)
     series = sorted({s for s, _ in apps})
     ctx.floor("history series appended by sample()", len(series), 7)
+    # the series the property names must be recorded by the loop
+    for need in ("beta", "ess", "log_norm_ratio", "log_norm_ratio_var", "sample_history"):
+        has = any(s_ == need and loop_node.lineno <= n_.lineno <= loop_node.end_lineno for s_, n_ in apps)
+        ctx.decide(has, "C18.series", sample.ident, loc_of(sample, loop_node), f"the loop records history.{need}",
+                   f"the SMC loop never appends to history.{need}: the record of the run lacks this series", disc=need)
     in_loop = lambda n: loop_node.lineno <= n.lineno <= loop_node.end_lineno
     # loop-invariant flags guarding an append
     params = set(sample.params)
